@@ -536,7 +536,9 @@ func (c *Ctx) copyBuiltin(args []*Val, rt types.Type, st *State) *Val {
 		} else {
 			in = sAnd("(bvule "+dst.Off+" j)", "(bvult "+rel+" "+n+")")
 		}
-		c.assumeHere(fmt.Sprintf("(forall ((j %s)) (! (= (select %s j) (ite %s %s (select %s j))) :pattern ((select %s j))))", c.idxSort(), na, in, srcAt(rel), oldDst, na))
+		if !c.abstractCopyContent() {
+			c.assumeHere(fmt.Sprintf("(forall ((j %s)) (! (= (select %s j) (ite %s %s (select %s j))) :pattern ((select %s j))))", c.idxSort(), na, in, srcAt(rel), oldDst, na))
+		}
 		st.over[name] = c.define("hw", sort, "(store "+m+" "+dst.Arr+" "+na+")")
 	}
 	return &Val{K: VScalar, T: rt, S: n}
